@@ -323,7 +323,46 @@ def _angle(rng):
     return float(rng.uniform(-3.2, 3.2))
 
 
+def gen_seed(rng, boundary=0.5):
+    """integer seeds with the boundary values over-represented: 0 (falsy!), 1, 2**32-1; 1/16 None"""
+    r = float(rng.random())
+    if r < boundary * 0.7:
+        return 0
+    if r < boundary * 0.85:
+        return 1
+    if r < boundary:
+        return 2 ** 32 - 1
+    if r < boundary + 0.06:
+        return None
+    return int(rng.integers(0, 2 ** 31))
+
+
+# (ring size, width) pairs on which the random tie-break of the priority queue decides WHICH of several equally cheap
+# cut sets is returned (measured on the unchanged tree: 2-5 distinct outputs over 12 seeds)
+TIE_RINGS = [(4, 3), (5, 2), (5, 3), (5, 4), (5, 4), (6, 4)]
+
+
+def gen_fc_tie(rng, seed=None, force_seed=False):
+    """tie-heavy circuits: a ring of identical two-qubit gates on 4-6 (randomly relabelled) qubits, optionally two rounds"""
+    n, width = TIE_RINGS[int(rng.integers(0, len(TIE_RINGS)))]
+    g = ["cx", "cx", "cz"][int(rng.integers(0, 3))]
+    perm = [int(x) for x in rng.permutation(n)]
+    off = int(rng.integers(0, n))
+    ops = [[g, [perm[(i + off) % n], perm[(i + off + 1) % n]], []] for i in range(n)]
+    if rng.integers(0, 5) == 0:
+        ops = ops + [[g, list(o[1]), []] for o in ops]
+    if n == 5 and width == 2:
+        kinds = [(True, True), (True, False)][int(rng.integers(0, 2))]
+    else:
+        kinds = [(True, True), (True, False), (False, True)][int(rng.integers(0, 3))]
+    return dict(kind="fc", nq=n, ops=ops, width=width, gate_lo=kinds[0], wire_lo=kinds[1],
+                max_gamma=[1024, 1e6, 1e9][int(rng.integers(0, 3))], max_backjumps=[10000, None, 1000][int(rng.integers(0, 3))],
+                seed=(seed if force_seed else gen_seed(rng, 0.6)))
+
+
 def gen_fc(rng):
+    if rng.integers(0, 5) < 2:
+        return gen_fc_tie(rng)
     nq = int(rng.integers(2, 7))
     ng = int(rng.integers(1, 3 + 2 * nq // 2))
     ops = []
@@ -346,7 +385,7 @@ def gen_fc(rng):
              (False, False)][int(rng.integers(0, 8))]
     max_gamma = [1, 2, 3, 9, 16, 27, 81, 256, 1024, 1024, 1e4, 1e6, 1e6, 1e9, 3.5, 0.5][int(rng.integers(0, 16))]
     mb = [None, 0, 1, 2, 5, 20, 100, 10000][int(rng.integers(0, 8))]
-    seed = None if rng.integers(0, 12) == 0 else int(rng.integers(0, 2 ** 31))
+    seed = gen_seed(rng, 0.35)
     return dict(kind="fc", nq=nq, ops=ops, width=width, gate_lo=kinds[0], wire_lo=kinds[1], max_gamma=max_gamma,
                 max_backjumps=mb, seed=seed)
 
@@ -426,8 +465,13 @@ def is_subject(spec):
 def gen_family(rng, maxlen):
     """distinct base calls + three histories over them (base order, permuted, with repeats + interference)."""
     m = int(rng.integers(2, max(3, min(11, maxlen // 2 + 1))))
-    base = []
-    seen = set()
+    # every family starts from one tie-heavy search with the falsy seed 0 and one with another boundary seed
+    base = [gen_fc_tie(rng, seed=0, force_seed=True)]
+    if m >= 3:
+        base.append(gen_fc_tie(rng, seed=[1, 2 ** 32 - 1, 0][int(rng.integers(0, 3))], force_seed=True))
+    seen = set(call_key(c) for c in base)
+    if len(seen) < len(base):
+        base = base[:1]
     while len(base) < m:
         c = gen_call(rng)
         if call_key(c) not in seen:
@@ -436,8 +480,10 @@ def gen_family(rng, maxlen):
     hs = []
     hs.append([dict(perturb=gen_perturb(rng), call=c) for c in base])
     hs.append([dict(perturb=gen_perturb(rng), call=base[int(i)]) for i in rng.permutation(m)])
-    L = int(rng.integers(m, maxlen + 1))
-    seq = [base[int(i)] for i in rng.permutation(m)] + [base[int(rng.integers(0, m))] for _ in range(L - m)]
+    # repeats: every call at least TWICE (2m <= maxlen by the choice of m), then random further repetitions
+    L = int(rng.integers(2 * m, maxlen + 1))
+    seq = [base[int(i)] for i in rng.permutation(m)] + [base[int(i)] for i in rng.permutation(m)] + \
+        [base[int(rng.integers(0, m))] for _ in range(L - 2 * m)]
     seq = [seq[int(i)] for i in rng.permutation(len(seq))]
     evs = []
     for c in seq:
@@ -642,6 +688,8 @@ def generate(rng, tier, outdir):
                 w.count("call.status", c["kind"] + ":" + r["status"])
                 w.count("perturb", "+".join(sorted(set(p[0] for p in e["perturb"]))) or "none")
                 if c["kind"] == "fc":
+                    w.count("fc.seed", {0: "0", 1: "1", 2 ** 32 - 1: "2**32-1", None: "None"}.get(c["seed"], "other int"))
+                    w.count("fc.shape", "tie-heavy ring" if len({o[0] for o in c["ops"]}) == 1 and len(c["ops"]) >= c["nq"] >= 4 else "random")
                     w.count("fc.cut_kinds", f"gate_lo={c['gate_lo']},wire_lo={c['wire_lo']}")
                     w.count("fc.nq", c["nq"])
                 if "orng" in r:
@@ -693,9 +741,12 @@ def generate(rng, tier, outdir):
 
     return w.finish(
         rule="history: families of 2-10 distinct calls (find_cuts on random cx/cz/swap(/rzz) circuits of 2-6 qubits with random width, "
-             "cut kinds, max_gamma, max_backjumps, int seeds (1/12 seed=None, 1/20 width 0 malformed); generate_cutting_experiments(num_samples=inf) "
+             "cut kinds, max_gamma, max_backjumps, and 2/5 tie-heavy rings of identical cx/cz gates on 4-6 qubits at the widths where the random "
+             "tie-break decides which cut set is returned; integer seeds with the boundary values 0 (falsy), 1, 2**32-1 over-represented, the same seed "
+             "shared by several calls (1/16 seed=None, 1/40 width 0 malformed); generate_cutting_experiments(num_samples=inf) "
              "on 2-4 qubit problems with 1-2 cut gates, partitioned and single-circuit forms; QPDBasis.from_instruction on the 20 registered gates "
-             "and 5 KAK-path gates), each family executed as three histories (base order / permuted / permuted with repeats up to the length bound "
+             "and 5 KAK-path gates), every family contains a tie-heavy search with seed 0; each family executed as three histories (base order / permuted / every call at "
+             "least twice plus random repeats up to the length bound "
              "and an optional finite-num_samples generation as interference), every history in its own interpreter with random reseeding/advancing "
              "of numpy's and Python's global generators before each call, plus every distinct call alone in a fresh interpreter. "
              "distinct = distinct call sequence; non-trivial = at least two calls the property speaks about. "
@@ -707,8 +758,16 @@ def generate(rng, tier, outdir):
 
 def judge(case):
     """Same call (same arguments, same integer seed) => same canonical result, whatever the position in the history,
-    the state of the global generators, or the interpreter.  Uses only what the implementation returned."""
-    if case["kind"] != "history":
+    the state of the global generators, or the interpreter.  Uses only what the implementation returned (the JSON case);
+    never raises."""
+    try:
+        return _judge(case)
+    except Exception as e:  # noqa: BLE001
+        return dict(violates=None, detail=f"case not judgeable: {type(e).__name__}: {e}")
+
+
+def _judge(case):
+    if case.get("kind") != "history":
         return dict(violates=False, detail="registry bookkeeping case; the property text is silent (model/implementation disagreement only)")
     seen = {}
     for f in case.get("fresh", []):
